@@ -1509,6 +1509,11 @@ func (self *Analyzer) matchExpression(node pAst.MatchExpression) ast.AnalyzedMat
 		}
 	}
 
+	// Without a default arm it is possible that no arm matches: even if every arm diverges, the match itself completes (with `null`).
+	if defaultArm == nil && resultType.Kind() == ast.NeverTypeKind {
+		resultType = ast.NewNullType(node.Range)
+	}
+
 	return ast.AnalyzedMatchExpression{
 		ControlExpression: controlExpr,
 		Arms:              arms,
